@@ -181,3 +181,14 @@ Proof.
     rewrite <- not_forwarded_parse, fwd_visible_not_forwarded in Hpr.
     apply list_pair_eqb_nil in Hpr. rewrite Hpr. reflexivity.
 Qed.
+
+(** the same for a history: every step whose oracles are well-formed and whose observation is the model's
+    prediction satisfies the property predicate *)
+Theorem check_history_coherent h :
+  forallb oracles_ok h = true -> v_corr (check true h) = true -> v_prop (check true h) = true.
+Proof.
+  unfold check. cbn [v_corr v_prop]. intros Ho Hc. apply andb_true_iff in Hc as [_ Hc].
+  rewrite forallb_forall in *. intros c Hin. specialize (Ho c Hin). specialize (Hc c Hin).
+  unfold check1 in *. cbn [v_corr v_prop] in *.
+  repeat (apply andb_true_iff in Hc as [Hc ?]). apply check_coherent; assumption.
+Qed.
